@@ -712,6 +712,90 @@ fn reentrancy_probe<const D: usize, const F: usize, const V: usize>(base: &Arc<B
     n
 }
 
+/// The wrapper types hand their handle back with `to_raw_*` *without* closing it, and take it over with `to_*`
+/// without re-opening it: after `open_volume(p)?.to_raw_volume()` the volume is open (cannot be opened again, can be
+/// closed), the same for directories and files; dropping a wrapper closes exactly its own handle.
+fn conversion_probe<const D: usize, const F: usize, const V: usize>(base: &Arc<BaseImage>, id: u32, hist: &[LOp], out: &mut Vec<(String, String)>) -> u64 {
+    let w = replay::<D, F, V>(base, id, hist);
+    let vm = &w.vm;
+    let me = |e: embedded_sdmmc::Error<crate::simdisk::DevErr>| map_err(&e);
+    let mut n = 0u64;
+    let mut bad = |sig: &str, detail: String| out.push((format!("conversion/{}", sig), detail));
+    // a volume that is not open yet, if the table has room
+    let open_count = w.m.vols.iter().filter(|x| **x).count();
+    if let (Some(p), true) = ((0..4usize).find(|&p| !w.m.vols[p]), open_count < V) {
+        n += 1;
+        match vm.open_volume(VolumeIdx(p)).map(|v| v.to_raw_volume()).map_err(me) {
+            Ok(h) => {
+                // (refused as already open, or - with a full table - as one volume too many)
+                if let Ok(h2) = vm.open_raw_volume(VolumeIdx(p)) {
+                    bad("volume-closed-by-to_raw_volume", format!("after open_volume({})?.to_raw_volume() the volume can be opened a second time", p));
+                    let _ = vm.close_volume(h2);
+                }
+                if let Err(e) = vm.close_volume(h).map_err(me) {
+                    bad("volume-closed-by-to_raw_volume", format!("after open_volume({})?.to_raw_volume(), close_volume on the handle -> {:?}", p, e));
+                }
+                // and dropping the wrapper does close
+                match vm.open_volume(VolumeIdx(p)) {
+                    Ok(v) => drop(v),
+                    Err(e) => bad("volume-not-reopenable", format!("open_volume({}) after closing it -> {:?}", p, map_err(&e))),
+                }
+                match vm.open_raw_volume(VolumeIdx(p)).map_err(me) {
+                    Ok(h2) => {
+                        let _ = vm.close_volume(h2);
+                    }
+                    Err(e) => bad("volume-not-closed-by-drop", format!("after dropping the Volume wrapper of partition {}, open_raw_volume -> {:?}", p, e)),
+                }
+            }
+            Err(e) => bad("open_volume-fails", format!("open_volume({}) with {} of {} volumes open -> {:?}", p, open_count, V, e)),
+        }
+    }
+    // a directory and a file on an open volume, if the tables have room
+    if let Some(vh) = w.vols.iter().flatten().next().cloned() {
+        if w.dirs.len() < D {
+            n += 1;
+            match vm.open_root_dir(vh).map_err(me) {
+                Ok(raw) => {
+                    let back = raw.to_directory(vm).to_raw_directory();
+                    if back != raw {
+                        bad("directory-handle-changed", format!("to_directory().to_raw_directory() turned {} into {}", hid(&raw), hid(&back)));
+                    }
+                    if let Err(e) = vm.iterate_dir(back, |_| {}).map_err(me) {
+                        bad("directory-closed-by-to_raw_directory", format!("iterate_dir on the handle -> {:?}", e));
+                    }
+                    if w.files.len() < F {
+                        match vm.open_file_in_dir(back, "README.TXT", Mode::ReadOnly).map_err(me) {
+                            Ok(rf) => {
+                                let fb = rf.to_file(vm).to_raw_file();
+                                if fb != rf {
+                                    bad("file-handle-changed", format!("to_file().to_raw_file() turned {} into {}", hid(&rf), hid(&fb)));
+                                }
+                                if let Err(e) = vm.file_length(fb).map_err(me) {
+                                    bad("file-closed-by-to_raw_file", format!("file_length on the handle -> {:?}", e));
+                                }
+                                // dropping the wrapper closes the file: the directory can then be closed and the file reopened
+                                drop(fb.to_file(vm));
+                                if !matches!(vm.file_length(fb).map_err(me), Err(E::BadHandle)) {
+                                    bad("file-not-closed-by-drop", "file_length succeeds on a handle whose File wrapper was dropped".into());
+                                }
+                            }
+                            // README.TXT may be open already in this state
+                            Err(E::FileAlreadyOpen) => {}
+                            Err(e) => bad("open_file-fails", format!("open_file_in_dir(README.TXT, ReadOnly) -> {:?}", e)),
+                        }
+                    }
+                    drop(back.to_directory(vm));
+                    if !matches!(vm.iterate_dir(back, |_| {}).map_err(me), Err(E::BadHandle)) {
+                        bad("directory-not-closed-by-drop", "iterate_dir succeeds on a handle whose Directory wrapper was dropped".into());
+                    }
+                }
+                Err(e) => bad("open_root_dir-fails", format!("open_root_dir with {} of {} directories open -> {:?}", w.dirs.len(), D, e)),
+            }
+        }
+    }
+    n
+}
+
 #[derive(Clone, Copy, Debug, PartialEq, Eq)]
 pub enum Probes {
     None,
@@ -776,6 +860,7 @@ pub fn explore<const D: usize, const F: usize, const V: usize>(base: &Arc<BaseIm
                         let mut out = Vec::new();
                         res.probes += stale_probe::<D, F, V>(base, id_offset, &h2, &mut out);
                         res.probes += reentrancy_probe::<D, F, V>(base, id_offset, &h2, probes == Probes::FullWithWrappers, &mut out);
+                        res.probes += conversion_probe::<D, F, V>(base, id_offset, &h2, &mut out);
                         for (sig, detail) in out {
                             add(&mut res, sig, detail, &h2);
                         }
